@@ -54,6 +54,9 @@ fn silence_panics() {
 }
 
 fn errs(e: &AutosarDataError) -> String {
+    if std::env::var_os("AVH_DEBUG").is_some() {
+        eprintln!("  err: {e:?}");
+    }
     match e {
         AutosarDataError::ItemDeleted => "err ItemDeleted".to_string(),
         AutosarDataError::ParentElementLocked => "err ParentElementLocked".to_string(),
@@ -186,6 +189,9 @@ impl World {
     /// executes ONE protocol request on the real library
     pub fn exec(&mut self, req: &str) -> String {
         let w: Vec<&str> = req.split(' ').collect();
+        if std::env::var_os("AVH_DEBUG").is_some() {
+            eprintln!("REQ {}", w[0]);
+        }
         match catch_unwind(AssertUnwindSafe(|| self.exec_inner(&w))) {
             Ok(Some(s)) => s,
             Ok(None) => "err".to_string(),
@@ -2070,7 +2076,7 @@ impl Gen {
                 self.set_value(l, true);
             }
         }
-        if self.rng.chance(3, 10) {
+        if self.rng.chance(1, 2) {
             if let Some(l2) = self.create(pkg, Desc).and_then(|d| self.create(d, L2)) {
                 self.m(format!("attr e{l2} {} E:{}", id16(AttributeName::L), id16(EnumItem::En)));
                 self.m(format!("instext e{l2} 0 {}", hx("some text")));
@@ -2217,13 +2223,33 @@ impl Gen {
         use ElementName::{AdminData, ArPackage, ArPackages, Category, Desc, Elements, FibexElementRef, FibexElements, Language, LongName, ShortName, System, L2, L4};
         const POOL: [ElementName; 14] = [ArPackages, ArPackage, Elements, Category, ShortName, Desc, L2, System, FibexElements, FibexElementRef, AdminData, Language, LongName, L4];
         let valid = self.rng.chance(4, 5);
-        let p = if valid { self.pick_where(|e| e.content_type() != ContentType::CharacterData).unwrap_or(0) } else { self.pick_handle() };
+        let mut p = if valid { self.pick_where(|e| e.content_type() != ContentType::CharacterData).unwrap_or(0) } else { self.pick_handle() };
+        let mut cands: Vec<ElementName> = vec![];
+        if valid {
+            // look for a parent that has a creatable sub-element of the wanted kind
+            for _ in 0..12 {
+                cands = self.el(p).list_valid_sub_elements().into_iter().filter(|v| v.is_named == named && v.is_allowed).map(|v| v.element_name).collect();
+                if !cands.is_empty() {
+                    break;
+                }
+                p = self.pick_where(|e| e.content_type() != ContentType::CharacterData).unwrap_or(0);
+            }
+        }
         let pe = self.el(p);
-        let cands: Vec<ElementName> = pe.list_valid_sub_elements().into_iter().filter(|v| v.is_named == named && v.is_allowed).map(|v| v.element_name).collect();
         let n = if valid && !cands.is_empty() { cands[self.rng.below(cands.len())] } else { POOL[self.rng.below(POOL.len())] };
         let pos = self.pos_suffix(&pe, n);
         if named {
-            let name = if self.rng.chance(9, 10) { self.uname() } else { BAD_NAMES[self.rng.below(BAD_NAMES.len())] };
+            let mut name = if self.rng.chance(9, 10) { self.uname() } else { BAD_NAMES[self.rng.below(BAD_NAMES.len())] };
+            if self.rng.chance(3, 4) {
+                // prefer a name that is still free below this parent
+                let prefix = Self::prefix_of(&pe);
+                for _ in 0..4 {
+                    if pe.model().ok().and_then(|m| m.get_element_by_path(&format!("{prefix}/{name}"))).is_none() {
+                        break;
+                    }
+                    name = self.uname();
+                }
+            }
             self.m(format!("named e{p} {} {}{pos}", id16(n), hx(name)));
         } else {
             self.m(format!("create e{p} {}{pos}", id16(n)));
@@ -2411,7 +2437,7 @@ impl Gen {
                         return false;
                     }
                     let fits = p.min_version().and_then(|v| p.calc_element_insert_range(name, v)).is_ok();
-                    if !(fits || (!copy && same_parent)) {
+                    if !fits {
                         return false;
                     }
                     if !xe.is_identifiable() && !allow_col && !same_parent && self.would_collide(p, &xe) {
